@@ -1256,3 +1256,371 @@ def r8(cx):
 
 
 RS.explanation += ' char_needs_quoting declares a character safe only after char::is_whitespace - the lexer\'s blank predicate - said no (R8).'
+
+
+# ---------------------------------------------------------------------------------------
+# added after seed wave 5 (C07-s9: `new_mask` skipped every action whose literal permission list is empty, the `=` operator included)
+from rules.C01 import (Interp as _HInterp, MutStruct as _MutStruct, Undecidable as _HUndecidable, V as _HV,
+                       _Break as _HBreak, _Continue as _HContinue)
+
+UMASK = 'yash_builtin::umask::'
+UM_COMMAND, UM_CLAUSE, UM_ACTION, UM_WHO = UMASK + 'Command', UMASK + 'symbol::Clause', UMASK + 'symbol::Action', UMASK + 'symbol::Who'
+UM_PERM, UM_OP = UMASK + 'symbol::Permission', UMASK + 'symbol::Operator'
+UM_NEW_MASK = UMASK + 'eval::new_mask'
+_INT_BITS = {'u8': 8, 'u16': 16, 'u32': 32, 'u64': 64, 'usize': 64}
+
+
+class _BitInterp(_HInterp):
+    """rules/C01.Interp plus what integer mask arithmetic needs: & | ^ << >> ! on unsigned integers (wrapped to the operand type),
+    `for` over a Vec value / `.iter()` of one, |= &= ^=, and calls of other functions of the umask module (interpreted as well)."""
+
+    def __init__(self, F, scope, fuel=20000):
+        _HInterp.__init__(self, F, self._extern, fuel)
+        self.scope = scope
+
+    def _extern(self, name, recv, args, node):
+        name = str(name)
+        if name.startswith(self.scope) and name in self.F.hir and not name.startswith('path:'):
+            sub = _BitInterp(self.F, self.scope, self.fuel)
+            r = sub.call_fn(name, ([recv] if recv is not None else []) + list(args))
+            self.fuel = sub.fuel
+            return r
+        if isinstance(recv, list) and not args and re.search(r'::(iter|into_iter|as_slice|deref|by_ref|copied|cloned)$', name):
+            return recv
+        if isinstance(recv, (int, bool, tuple)) and not args and re.search(r'::clone$', name):
+            return recv
+        raise _HUndecidable('new_mask calls %s, which the rule does not model' % name)
+
+    @staticmethod
+    def _bits(n):
+        b = _INT_BITS.get(str(n.get('ta') or n.get('ty') or ''))
+        if b is None:
+            raise _HUndecidable('bit operation on type %r' % (n.get('ta') or n.get('ty')))
+        return b
+
+    @staticmethod
+    def _bitop(op, a, b, bits):
+        m = (1 << bits) - 1
+        if op == '&':
+            return a & b
+        if op == '|':
+            return a | b
+        if op == '^':
+            return a ^ b
+        if op == '<<' and 0 <= b < bits:
+            return (a << b) & m
+        if op == '>>' and 0 <= b < bits:
+            return a >> b
+        raise _HUndecidable('operator %s' % op)
+
+    def binary(self, n, env):
+        if n['op'] in ('&', '|', '^', '<<', '>>'):
+            a, b = self.ev(n['a'], env), self.ev(n['b'], env)
+            if isinstance(a, bool) and isinstance(b, bool) and n['op'] in ('&', '|', '^'):
+                return {'&': a and b, '|': a or b, '^': a != b}[n['op']]
+            if isinstance(a, int) and isinstance(b, int) and not isinstance(a, bool) and not isinstance(b, bool):
+                return self._bitop(n['op'], a, b, self._bits(n))
+            raise _HUndecidable('binary %s on %r, %r' % (n['op'], a, b))
+        return _HInterp.binary(self, n, env)
+
+    def ev(self, n, env):
+        k = n.get('k') if n is not None else None
+        if k == 'unary' and n.get('op') == '!':
+            a = self.ev(n['a'], env)
+            if isinstance(a, bool):
+                return not a
+            if isinstance(a, int):
+                return ~a & ((1 << self._bits(n)) - 1)
+            raise _HUndecidable('! on %r' % (a,))
+        if k == 'assignop' and n.get('op') in ('&=', '|=', '^=', '<<=', '>>='):
+            cur, r = self.ev(n['l'], env), self.ev(n['r'], env)
+            if isinstance(cur, bool) or isinstance(r, bool) or not (isinstance(cur, int) and isinstance(r, int)):
+                raise _HUndecidable('compound assignment %s on %r, %r' % (n['op'], cur, r))
+            self.assign(n['l'], self._bitop(n['op'][:-1], cur, r, 16), env)
+            return ('T', ())
+        if k == 'for':
+            itv = self.ev(n['iter'], env)
+            if not isinstance(itv, list):
+                raise _HUndecidable('for loop over %r' % (itv,))
+            for item in list(itv):
+                self.fuel -= 1
+                if self.fuel < 0:
+                    raise _HUndecidable('fuel')
+                if not self.bind(n['pat'], item, env):
+                    raise _HUndecidable('for loop pattern')
+                try:
+                    self.ev(n['body'], env)
+                except _HBreak:
+                    break
+                except _HContinue:
+                    continue
+            return ('T', ())
+        return _HInterp.ev(self, n, env)
+
+
+def _um_fields(F, adt, variant=None):
+    a = F.adts.get(adt)
+    if a is None:
+        return None
+    for v in a['variants']:
+        if variant is None or v['name'] == variant:
+            return [f['name'] for f in v['fields']]
+    return None
+
+
+def _um_action(op, perm):
+    if isinstance(perm, str):
+        p = _HV(UM_PERM + '::' + perm)
+    else:
+        p = _MutStruct(UM_PERM + '::Literal', {'mask': perm[0], 'conditional_executable': perm[1]}, variant=True)
+    return _MutStruct(UM_ACTION, {'operator': _HV(UM_OP + '::' + op), 'permission': p})
+
+
+def _um_clause(who, actions):
+    return _MutStruct(UM_CLAUSE, {'who': _MutStruct(UM_WHO, {'mask': who}), 'actions': list(actions)})
+
+
+def _um_reference(current, clauses):
+    """POSIX symbolic mode applied to the complement of the mask (`current` = permissions NOT masked), written independently of /repo:
+    permission copies and X are resolved against the mask the built-in started with."""
+    def rep(c):
+        c &= 7
+        return (c << 6) | (c << 3) | c
+    result = current
+    for who, actions in clauses:
+        for op, perm in actions:
+            if perm == 'CopyUser':
+                bits = rep(current >> 6)
+            elif perm == 'CopyGroup':
+                bits = rep(current >> 3)
+            elif perm == 'CopyOther':
+                bits = rep(current)
+            else:
+                bits = perm[0] | (0o111 if perm[1] and current & 0o111 else 0)
+            bits &= who
+            if op == 'Add':
+                result |= bits
+            elif op == 'Remove':
+                result &= ~bits & 0xFFFF
+            else:                                   # Set: the `who` bits become exactly `bits` - an empty list clears the class
+                result = (result & ~who & 0xFFFF) | bits
+    return result
+
+
+def _um_show(who, op, perm):
+    w = {0o700: 'u', 0o070: 'g', 0o007: 'o', 0o777: 'a', 0o770: 'ug'}.get(who, oct(who))
+    o = {'Add': '+', 'Remove': '-', 'Set': '='}[op]
+    if isinstance(perm, str):
+        p = {'CopyUser': 'u', 'CopyGroup': 'g', 'CopyOther': 'o'}[perm]
+    else:
+        p = ''.join(ch for ch, bit in (('r', 0o444), ('w', 0o222), ('x', 0o111)) if perm[0] & bit) + ('X' if perm[1] else '')
+    return w + o + p
+
+
+@RS.rule('C07.R9', 'K-TABLE', 'the listing printed by `umask -S` (`u=rwx,g=rx,o=`) recreates the mask: umask::eval::new_mask, evaluated on its HIR, '
+         'agrees with the POSIX symbolic-mode semantics for every single action who {u,g,o,a,ug} x operator {+,-,=} x permission {every subset of rwx, '
+         'with and without X, u, g, o} and for the listing of each of the 512 masks - in particular `who=` with an empty permission list '
+         'clears the class, whatever the permission VALUE is no action is skipped')
+def r9(cx):
+    F = cx.F
+    cx.fn(UM_NEW_MASK)
+    h = F.hir_of(UM_NEW_MASK)
+    # the value model the rule builds its inputs from: fail closed when the types change
+    cx.require(_um_fields(F, UM_COMMAND, 'Set') == ['0'] and 'Vec<%s>' % UM_CLAUSE in str(F.adts[UM_COMMAND]['variants']),
+               'umask::Command::Set is no longer Set(Vec<Clause>)')
+    cx.require(_um_fields(F, UM_CLAUSE) == ['who', 'actions'], 'umask::symbol::Clause is no longer {who, actions}')
+    cx.require(_um_fields(F, UM_WHO) == ['mask'], 'umask::symbol::Who is no longer {mask}')
+    cx.require(_um_fields(F, UM_ACTION) == ['operator', 'permission'], 'umask::symbol::Action is no longer {operator, permission}')
+    cx.require([v['name'] for v in F.adts[UM_OP]['variants']] == ['Add', 'Remove', 'Set'], 'umask::symbol::Operator is no longer Add/Remove/Set')
+    cx.require([v['name'] for v in F.adts[UM_PERM]['variants']] == ['CopyUser', 'CopyGroup', 'CopyOther', 'Literal'] and
+               _um_fields(F, UM_PERM, 'Literal') == ['mask', 'conditional_executable'],
+               'umask::symbol::Permission is no longer CopyUser/CopyGroup/CopyOther/Literal{mask, conditional_executable}')
+    cx.require(len(h['params']) == 2 and F.fns[UM_NEW_MASK]['inputs'] == ['u16', '&' + UM_COMMAND] and F.fns[UM_NEW_MASK]['output'] == 'u16',
+               'new_mask is no longer fn(u16, &Command) -> u16')
+
+    def run(current, clauses):
+        cmd = _HV(UM_COMMAND + '::Set', [_um_clause(who, [_um_action(op, perm) for op, perm in actions]) for who, actions in clauses])
+        try:
+            r = _BitInterp(F, UMASK).call_fn(UM_NEW_MASK, [current, cmd])
+        except _HUndecidable as e:
+            cx.require(False, 'new_mask cannot be evaluated on its HIR (%s): the `umask -S` read-back clause is undecided' % e)
+        cx.require(isinstance(r, int) and not isinstance(r, bool), 'new_mask evaluated to a non-integer %r' % (r,))
+        return r
+
+    loc = '%s:%s' % (h['file'], h['line'])
+    # (a) every single action
+    perms = [(m, x) for m in (0, 0o111, 0o222, 0o333, 0o444, 0o555, 0o666, 0o777) for x in (False, True)] + ['CopyUser', 'CopyGroup', 'CopyOther']
+    currents = (0o000, 0o777, 0o755, 0o750, 0o640, 0o201)
+    cells, bad = 0, {}
+    for who in (0o700, 0o070, 0o007, 0o777, 0o770):
+        for op in ('Add', 'Remove', 'Set'):
+            for perm in perms:
+                for cur in currents:
+                    cells += 1
+                    got, want = run(cur, [(who, [(op, perm)])]), _um_reference(cur, [(who, [(op, perm)])])
+                    if got != want:
+                        bad.setdefault((op, 'copy' if isinstance(perm, str) else ('empty-list' if perm == (0, False) else 'literal')), []).append(
+                            (who, op, perm, cur, got, want))
+    cx.site('new_mask evaluated on %d single actions (5 who x 3 operators x %d permissions x %d current masks): %d disagree with the reference' % (
+        cells, len(perms), len(currents), sum(len(v) for v in bad.values())))
+    for (op, cls), exs in sorted(bad.items()):
+        who, op_, perm, cur, got, want = exs[0]
+        cx.violation(UM_NEW_MASK, 'action-%s-%s' % (op.lower(), cls),
+                     '`umask %s` with the mask %03o gives %03o instead of %03o (%d input(s) of this kind disagree): the symbolic action is not '
+                     'applied as POSIX defines it, so a listing printed by `umask -S` does not recreate the mask' % (
+                         _um_show(who, op_, perm), ~cur & 0o777, ~got & 0o777, ~want & 0o777, len(exs)), loc=loc)
+    # (b) the listing of every mask, read back from three starting masks
+    lcells, lbad = 0, []
+    for allowed in range(0o1000):
+        clauses = [(w, [('Set', (((0o444 if allowed & w & 0o444 else 0) | (0o222 if allowed & w & 0o222 else 0) | (0o111 if allowed & w & 0o111 else 0)), False))])
+                   for w in (0o700, 0o070, 0o007)]
+        for cur in (0o777, 0o000, 0o755):
+            lcells += 1
+            got = run(cur, clauses)
+            if got != allowed:
+                lbad.append((allowed, cur, got))
+    cx.site('the `umask -S` listing u=..,g=..,o=.. of each of the 512 masks evaluated from 3 starting masks (%d runs): %d do not recreate the mask' % (lcells, len(lbad)))
+    cx.cellcount(cells + lcells)
+    if lbad:
+        allowed, cur, got = lbad[0]
+        text = ','.join(_um_show(w, 'Set', ((0o444 if allowed & w & 0o444 else 0) | (0o222 if allowed & w & 0o222 else 0) | (0o111 if allowed & w & 0o111 else 0), False))
+                        for w in (0o700, 0o070, 0o007))
+        cx.violation(UM_NEW_MASK, 'listing-not-recreated', 'the listing `%s` that `umask -S` prints for the mask %03o, evaluated in a shell whose mask is '
+                     '%03o, sets the mask %03o (%d of %d listing runs fail): the printed state is not recreated' % (
+                         text, ~allowed & 0o777, ~cur & 0o777, ~got & 0o777, len(lbad), lcells), loc=loc)
+
+
+RS.explanation += ' umask::eval::new_mask is evaluated on its HIR over every single symbolic action and the `umask -S` listing of all 512 masks against a reference written in the rule: `who=` with an empty list clears the class (R9).'
+
+
+# ---------------------------------------------------------------------------------------
+# added after seed wave 5 (C07-s10: Memory::next_line dropped the CR of a CR LF pair, also inside quotes)
+INPUT_TRAIT = 'yash_env::input::Input'
+# str / String methods whose result (or effect on the receiver) is the text with characters removed or replaced.  split_inclusive, chars,
+# find, len, is_empty, to_owned, as_bytes, from_utf8 .. keep every character and are not listed.
+TEXT_EDIT = re.compile(
+    r'^(?:core::str::<impl str>|alloc::str::<impl str>|alloc::string::String)::'
+    r'(trim\w*|strip_\w+|r?split(?:n|_terminator|_whitespace|_ascii_whitespace|_once|_off|_at\w*|_first|_last)?|lines|replace\w*|'
+    r'to_(?:ascii_)?(?:lower|upper)case|make_ascii_\w+|escape_\w+|pop|truncate|remove|retain|drain|clear|insert\w*|'
+    r'from_utf8_lossy\w*|from_utf16_lossy|repeat|get(?:_mut|_unchecked\w*)?|r?matches|r?match_indices|extend_from_within)$')
+TEXT_ITER_ADAPTER = re.compile(r'^core::iter::traits::(?:iterator::Iterator|double_ended::DoubleEndedIterator)::'
+                               r'(filter|filter_map|map|map_while|skip|skip_while|take|take_while|step_by|rev|flat_map|scan|nth|nth_back|next_back|advance_by|last|reduce|fold)$')
+TEXT_ITER_TYPE = re.compile(r'core::str::iter::(Chars|CharIndices|Bytes|Split\w*|RSplit\w*|Lines\w*|Matches|EncodeUtf16)|core::str::(Chars|CharIndices|Bytes|Lines)\b')
+TEXT_INDEX = re.compile(r'ops::index::Index(Mut)?(<.*>)?(>| for .*>)?::index(_mut)?$')
+# reviewed editing sites inside the input functions: (substring of the logical function, method) -> why it is not a loss of source text
+INPUT_EDIT_REVIEWED = {
+    ('fd_reader_2::FdReader2<S> as yash_env::input::Input>::next_line', 'from_utf8_lossy'):
+        'only bytes that are not valid UTF-8 are replaced (String::from_utf8 is tried first); text the quoter printed is valid UTF-8',
+}
+
+
+def _text_edit_name(t):
+    """Name of the text-editing operation a call terminator performs, or None."""
+    f = t['f']
+    d = str(f.get('def') or f.get('decl') or '')
+    m = TEXT_EDIT.match(d)
+    if m:
+        return m.group(1)
+    at0 = str((t.get('at') or [''])[0])
+    for cand in (d, str(f.get('decl') or '')):
+        m = TEXT_ITER_ADAPTER.match(cand)
+        if m and TEXT_ITER_TYPE.search(at0):
+            return 'chars-' + m.group(1)
+        if TEXT_INDEX.search(cand) and re.match(r'^&(mut )?(str|alloc::string::String)$', at0):
+            return 'slice-index'
+    return None
+
+
+@RS.rule('C07.R10', 'K-EFFECT', 'what an input function hands to the lexer is the source text verbatim: in every implementation of '
+         'yash_env::input::Input::next_line (Memory, FdReader2, the decorators Echo / IgnoreEof / Reporter / EofGuard, yash_prompt::Prompter), the other '
+         'functions of their source files (constructors such as Memory::new, which splits the code into lines) and the workspace helpers they call that '
+         'return text, no str / String method that removes or replaces characters (trim*, strip_*, split without _inclusive, lines, replace*, pop, '
+         'truncate, remove, retain, slicing, filtering chars ..) is called, reviewed sites excepted - a quoted value is printed with its characters '
+         'verbatim inside quotes, so any character the input function drops (the CR of CR LF) is lost from the value read back')
+def r10(cx):
+    F = cx.F
+    impls = [i for i in F.impls if i.get('trait_def') == INPUT_TRAIT]
+    cx.require(impls, 'no implementation of yash_env::input::Input was found')
+    roots = []
+    for i in impls:
+        nl = [it['def'] for it in i['items'] if it.get('kind') == 'Fn' and it.get('name') == 'next_line']
+        cx.require(len(nl) == 1 and nl[0] in F.by_root, 'an implementation of Input (%s) has no next_line body' % i.get('self'))
+        roots.append(nl[0])
+    for adt in ('yash_env::input::memory::Memory', 'yash_env::input::fd_reader_2::FdReader2'):
+        cx.require(any(i.get('self_adt') == adt for i in impls), 'the primary input function %s no longer implements Input' % adt)
+    cx.floor(len(roots), 8, 'implementations of Input::next_line (blanket impl, Memory, FdReader2, Echo, IgnoreEof, Reporter, EofGuard, Prompter)')
+    # whole files for the implementations in the crate that defines the trait (yash-env/src/input.rs, input/*.rs: constructors, private
+    # helpers); for implementations in other crates (Prompter: its file also builds the PROMPT text, which is not source code) the next_line function only, no helper closure
+    cx.require(INPUT_TRAIT in F.traits, 'the trait yash_env::input::Input was not found')
+    home = INPUT_TRAIT.split('::')[0]
+    files = {i['file'] for i in impls if i.get('crate') == home and i.get('file')}
+    cx.require(len(files) >= 3, 'fewer than 3 source files of the crate defining Input implement it')
+    scope, outside = {}, {}                              # body path -> body
+    for k, b in F.bodies.items():
+        if b.file in files:
+            scope[k] = b
+    for r in roots:
+        for b in F.logical(r):
+            if b.fn not in scope:
+                outside[b.fn] = b
+    # workspace helpers called from there that return text (a line normaliser moved to another module stays in scope)
+    work, seen_roots = list(scope.values()), set(b.root for b in scope.values())
+    helpers = []
+    while work:
+        b = work.pop()
+        for blk, t in b.calls():
+            d = t['f'].get('def')
+            if not d or d not in F.by_root or d in seen_roots or not re.match(r'^<?yash_', d):
+                continue
+            out = str((F.fns.get(d) or {}).get('output') or '')
+            if not re.search(r'\bstr\b|\bString\b|\bCow<', out) or re.search(r'yash_env::input::Input>::next_line$', d):
+                continue
+            seen_roots.add(d)
+            helpers.append(d)
+            for hb in F.logical(d):
+                scope[hb.fn] = hb
+                work.append(hb)
+    scope.update(outside)
+    seen_roots |= {b.root for b in outside.values()}
+    for r in sorted(seen_roots):
+        cx.fn(r)
+    # the matcher matches something: text-editing calls exist elsewhere in yash-env (outside the input functions)
+    elsewhere = 0
+    for k, b in F.bodies.items():
+        if k not in scope and (b.file or '').startswith('yash-env/src/'):
+            elsewhere += sum(1 for blk, t in b.calls() if _text_edit_name(t))
+    cx.require(elsewhere >= 3, 'the text-editing matcher finds fewer than 3 calls in the rest of yash-env (strip_prefix in option::parse_long, '
+               'split in variable::value::Value::split ..): callee paths have changed, the inventory would be vacuous')
+    found, used_reviews = 0, set()
+    ncalls = 0
+    for k in sorted(scope):
+        b = scope[k]
+        for blk, t in b.calls():
+            ncalls += 1
+            name = _text_edit_name(t)
+            if name is None:
+                continue
+            found += 1
+            why = None
+            for (fn_sub, meth), reason in INPUT_EDIT_REVIEWED.items():
+                if fn_sub in b.root and name == meth:
+                    why, _ = reason, used_reviews.add((fn_sub, meth))
+            cx.site('%s calls %s at %s: %s' % (b.root, t['f'].get('def') or t['f'].get('decl'), b.loc(t), 'reviewed - ' + why if why else 'NOT reviewed'))
+            if why is None:
+                cx.violation(b.root, 'text-edit-%s' % name, 'an input function (or a function of its file / a text helper it calls) applies `%s` to text: '
+                             'characters of the source code can be removed or replaced before the lexer sees them, also inside quotes - e.g. a CR '
+                             'before the newline dropped by strip_suffix("\\r\\n") turns the printed `v=\'dos\\r\\nline\'` into `dos\\nline` when '
+                             'read back; if this call provably never touches the returned text, add it to INPUT_EDIT_REVIEWED with the reason' % name,
+                             loc=b.loc(t))
+    # the reviewed lossy decoding is a fallback only: strict decoding is attempted in the same function
+    for (fn_sub, meth) in sorted(used_reviews):
+        if meth == 'from_utf8_lossy':
+            strict = [1 for k, b in scope.items() if fn_sub in b.root for blk, t in Q.find_calls(b, ['alloc::string::String::from_utf8', 'core::str::converts::from_utf8'])]
+            if not strict:
+                cx.violation('FdReader2::next_line', 'lossy-decoding-not-fallback', 'FdReader2::next_line decodes with from_utf8_lossy without trying the strict '
+                             'String::from_utf8 first: the review of this site assumed valid text is returned unchanged')
+    cx.site('%d bodies in scope (%d Input::next_line implementations, their %d source files, %d text-returning workspace helper(s) %s), %d calls examined, '
+            '%d text-editing call(s), %d elsewhere in yash-env (matcher is live)' % (len(scope), len(roots), len(files), len(helpers), helpers, ncalls, found, elsewhere))
+
+
+RS.explanation += ' Input functions hand the source text to the lexer verbatim: no text-editing str/String call in any Input::next_line implementation, its file or its text helpers, except the reviewed lossy-UTF-8 fallback of FdReader2 (R10).'
